@@ -85,6 +85,13 @@ def run(ctx):
         cases.append({"w": wire.case("verify_gpg_signature", g, PUBHEX[0], bd), "meta": {"tag": "valid-len%d" % len(bd)}})
         cases.append({"w": wire.case("verify_gpg_signature", mk(0, bd + bd, E.HDR), PUBHEX[0], bd), "meta": {"tag": "doubled-len%d" % len(bd)}})
         cases.append({"w": wire.case("verify_gpg_signature", g, PUBHEX[0], bd[:-1]), "meta": {"tag": "short-len%d" % len(bd)}})
+    # a header whose octets 2..3 equal its own subpacket-length field, and the payload/header boundary moved by two octets: the length in the
+    # trailer is the number of header octets actually hashed, not what the header says about itself
+    ln = 48
+    Hs = bytes([4, 0, ln >> 8, ln & 255, ln >> 8, ln & 255]) + rng.randbytes(ln)
+    sgs = ed_sign(SEEDS[0], hashlib.sha256(E.frame(b"12345", Hs)).digest()).hex()
+    for hdr, dat, tag in ((Hs, b"12345", "self-describing-valid"), (b"45" + Hs, b"123", "self-describing-shifted"), (Hs, b"123", "self-describing-other")):
+        cases.append({"w": wire.case("verify_gpg_signature", {"other_headers": hdr.hex(), "signature": sgs}, PUBHEX[0], dat), "meta": {"tag": tag}})
     # every value of each of the first six header octets (version, type, public-key algorithm, HASH algorithm, length): the digest is
     # SHA-256 whatever the header claims; and a digest by the claimed algorithm is NOT accepted
     data = E.canon({"sweep": 1})
